@@ -710,13 +710,13 @@ impl Property for C14 {
         vec![
             Family {
                 name: "ops",
-                batches: 360 * k,
+                batches: 900 * k,
                 batch_size: 60,
                 tape_len: 160,
             },
             Family {
                 name: "routes",
-                batches: 120 * k,
+                batches: 300 * k,
                 batch_size: 40,
                 tape_len: 400,
             },
